@@ -265,6 +265,18 @@ def _bisection1d(prog: Program, res: Result, lb: int):
                 if not okb:
                     res.violation("R01.1", f"bracket-other-field|{k[:100]}", where, q,
                                   f"the field returned under a height bracket is {vkey(ret.items[1])[:60]} but the bracket was established on {k[:160]}", path=describe_trail(st)[-4:])
+        else:
+            # no escape, no height bracket: the only other way to return a design is the final pick after the bisection loop
+            final_ret = max((r_ for r_ in fi.node.body if isinstance(r_, ast.Return)), key=lambda r_: r_.lineno, default=None)
+            if final_ret is None or st.exit[2] is not final_ret:
+                kk = ("R01.1e", st.exit[2].lineno)
+                if kk not in seen:
+                    seen.add(kk)
+                    esc_txt = [k_ for k_, tr_, ln_ in st.trail if "continue_if_design_unmet" in k_]
+                    res.ob("R01.1", f"return @L{st.exit[2].lineno}: an early return of a design is taken only under the unmet-design escape or a height bracket", False, where)
+                    res.violation("R01.1", f"early-return-without-escape|{vkey(ret.items[1])[:60]}", where, q,
+                                  f"search() returns {vkey(ret.items[1])[:80]} before the bisection, on a path that has neither established a height bracket for it nor found continue_if_design_unmet to be true "
+                                  f"({esc_txt[-1] if esc_txt else 'the flag is not tested'}): a field that does not meet the limits is handed out as the design", path=describe_trail(st)[-5:])
     res.count("bisection1d_return_paths", n_ret)
     res.floor("bisection1d_return_paths", 6)
     # every recorded excess is the excess of the field at that index at max height
@@ -732,6 +744,9 @@ def _clamp_table(prog: Program, res: Result):
 
 
 VARIANTS = [
+    Variant("the unmet-design escape is taken whenever the flag is not None (seeded C01_g)", "break",
+            [(SR, '            print(condition_msg)\n            if self.sim_params.continue_if_design_unmet:\n                print("Largest available configuration selected.")\n                selection_key = x_r_idx',
+              '            print(condition_msg)\n            if self.sim_params.continue_if_design_unmet is not None:\n                print("Largest available configuration selected.")\n                selection_key = x_r_idx')], "R01.1"),
     Variant("row-wise: the exhaustive re-check starts at the unevaluated bisection midpoint (seeded C01_h)", "break",
             [(SR, "            spacing_l = spacing_step + spacing_high\n            target_spacings = []\n            current_spacing = spacing_high\n", "            spacing_l = spacing_step + spacing_m\n            target_spacings = []\n            current_spacing = spacing_m\n")], "R01.1"),
     Variant("row-wise: the feasible end is also moved when the midpoint fails", "break",
